@@ -251,7 +251,7 @@ func init() {
 		x.call(r, func() { b, err := a.MarshalBinary(); r.keepBytes("MarshalBinary", b); r.err(err) })
 	})
 	reg("UnmarshalBinary", func(x *Ctx, op *Op, r *Result) {
-		in, chk := guard(op.bytes(0))
+		in, chk := x.input(op.bytes(0))
 		d := x.recv(op.int(0))
 		x.call(r, func() { err := d.UnmarshalBinary(in); r.err(err); r.dec(*d) })
 		if v := chk(); v != "" {
@@ -311,6 +311,7 @@ func init() {
 				// everything else the task holds in the same backing array
 				// (earlier appends into the same buffer) is gone as well
 				lo, hi := span(full)
+				x.noteWrite(full)
 				for _, res := range x.results {
 					if res == nil {
 						continue
